@@ -25,6 +25,9 @@ type subscriptionEntry struct {
 	respCh         chan *requests.Response
 	executorFn     func(map[string]interface{}) (map[string]interface{}, error)
 
+	// tokens of the goroutines running Listen and Close, used by simhook only
+	listenTok, closeTok uint64
+
 	sync.Mutex
 }
 
@@ -131,7 +134,7 @@ func (se *subscriptionEntry) prepareResponse(resp *requests.Response) *requests.
 }
 
 func (se *subscriptionEntry) Close() {
-	simhook.Enter("sub.close:" + se.id)
+	simhook.Start(se.closeTok)
 	defer simhook.Exit()
 	se.Lock()
 	isClosed := se.isClosed
@@ -148,7 +151,7 @@ func (se *subscriptionEntry) Close() {
 }
 
 func (se *subscriptionEntry) Listen(conn net.Conn) {
-	simhook.Enter("sub.listen:" + se.id)
+	simhook.Start(se.listenTok)
 	defer simhook.Exit()
 	defer func() {
 		simhook.Yield("sub.listen.defer")
